@@ -434,6 +434,7 @@ def referring(M, rep, ctx, R4, R5):
                 raise AnalysisError("C13.R4: %s has too many abstract paths" % key)
             kinds = set()
             sel = False
+            truth = None
             for p in paths:
                 comps = []
                 if p.terminal[0] == "return":
@@ -452,9 +453,18 @@ def referring(M, rep, ctx, R4, R5):
                 for cnd in conds:
                     if selects(cn, cnd):
                         sel = True
+                for a_, v_ in p.decisions:
+                    if a_[0] == "truthy" and a_[1] and ((a_[1][0] == "attr" and a_[1][2] == "metadata") or
+                                                        (a_[1][0] == "inst" and a_[1][1] == "Section")):
+                        truth = a_
             okc = kind in kinds or ("find_" + kind) in kinds
             why = "does not select by `metadata.id == self.id`" if cn == "Section" else \
                 "does not select by membership of this source in the candidate's sources"
+            if okc and sel and truth is not None:
+                rep.bad(R4, key, "%s tests the truth value of a candidate's metadata section (%s): a section is falsy while it has no "
+                        "properties, so objects linked to an empty section drop out of the list" % (key, show(truth)[:80]),
+                        site=g.file + ":%d" % g.node.lineno)
+                continue
             rep.check(R4, key, okc and sel, "%s %s" % (key, ("does not iterate the %s containers (iterates %s)" % (kind, sorted(kinds)))
                                                       if not okc else why), site=g.file + ":%d" % g.node.lineno,
                       what="iterates %s" % sorted(kinds))
